@@ -25,6 +25,7 @@ pub struct Judged {
 }
 
 pub fn judge_text(text: &str) -> Judged {
+    let _w = crate::util::watch::enter(text);
     let mut j = Judged { skipped: false, sigs: BTreeSet::new(), detail: String::new(), rendered: String::new() };
     let l1 = match front::parse(text, "case.st") {
         Ok(l) => l,
